@@ -34,6 +34,7 @@ class E3Config:
     term_slow: bool = False          # workers do not die promptly when terminated
     queue_scale: Optional[int] = None   # bounded Manager queues are scaled down to this many slots
     linger: tuple = ()               # nodes whose worker process never exits by itself after sending its result
+    prelude: bool = False            # an earlier run_tasks call through the SAME backend object was aborted by a failure (LabError)
 
     def to_json(self):
         d = asdict(self)
@@ -44,7 +45,7 @@ class E3Config:
     def from_json(d):
         return E3Config(base=e2.Config.from_json(d['base']), backend=d['backend'], max_workers=d['max_workers'],
                         cpu_count=d['cpu_count'], log_mode=d['log_mode'], die_exit0=d['die_exit0'],
-                        liveness_choice=d.get('liveness_choice', True), monitor=d.get('monitor', False), linger=tuple(d.get('linger', ())), queue_scale=d.get('queue_scale'), term_slow=d.get('term_slow', False))
+                        liveness_choice=d.get('liveness_choice', True), monitor=d.get('monitor', False), linger=tuple(d.get('linger', ())), queue_scale=d.get('queue_scale'), term_slow=d.get('term_slow', False), prelude=d.get('prelude', False))
 
     def brief(self):
         b = self.base.brief()
@@ -59,6 +60,8 @@ class E3Config:
             b['queue_scale'] = self.queue_scale
         if self.term_slow:
             b['term_slow'] = True
+        if self.prelude:
+            b['prelude'] = 'aborted call on the same backend object'
         return b
 
     @property
@@ -209,6 +212,30 @@ def run_once_e3(cfg: E3Config, chooser: Chooser, *, world_hook=None, around_run=
             backend = _BindingSpyBackend(inner, world, horizon=8 * spec.n + 16)
             backend.events = backend_events
             lt_process.run_or_load_task = _RecordRunOrLoad(backend_events, orig_rol)
+            if cfg.prelude:
+                # start from a non-initial state: an earlier, unrelated run_tasks call that went through
+                # this very backend object (another Lab, another storage, other tasks, another epoch) was
+                # aborted by a task failure with continue_on_failure=False while one worker was still
+                # running and one task had not been started.  Nothing of it may show in the measured call.
+                pspec = mk_spec(((), (0,), (), ()), labels=(100, 101, 102, 103))
+                pbuilt = Built(pspec)
+                st0 = MemStorage()
+                U.WORLD.reset(epoch=7, faults=[101])
+                try:
+                    labtech.Lab(storage=st0, runner_backend=backend, continue_on_failure=False, notebook=False,
+                                context=ctx, max_workers=2).run_tasks(list(pbuilt.canon), disable_progress=True, disable_top=True)
+                except (Spin, Livelock, HarnessError):
+                    raise
+                except BaseException:  # noqa
+                    pass
+                finally:
+                    st0.release()
+                del backend_events[:]
+                del gt[:]
+                world.record('prelude-done')
+                U.WORLD.reset(epoch=1, faults=[spec.labels[i] for i in base.faults], fault_exc=base.fault_exc,
+                              emit={spec.labels[i]: pat for i, pat in base.emit})
+                U.WORLD.die = frozenset()
             req = [built.get(i, fr) for i, fr in base.requested]
             lab = labtech.Lab(storage=storage, runner_backend=backend, continue_on_failure=base.cof,
                               notebook=False, context=ctx, max_workers=cfg.max_workers)
